@@ -215,9 +215,18 @@ class IOMixin(OptimizationProblem, metaclass=ABCMeta):
                 M[np.isnan(M)] = np.finfo(M.dtype).max
                 M = Timeseries(io_times[t_pos:], M)
 
-            # Store
+            # Store, taking the intersection with the bounds provided by other sources
             if m is not None or M is not None:
-                bounds[variable_name] = (m, M)
+                if m is None:
+                    m = -np.inf
+                if M is None:
+                    M = np.inf
+                try:
+                    other_bounds = bounds[variable_name]
+                except KeyError:
+                    bounds[variable_name] = (m, M)
+                else:
+                    bounds[variable_name] = self.merge_bounds(other_bounds, (m, M))
         return bounds
 
     @cached
